@@ -15,6 +15,9 @@ HARNESSES = {
     "qhist2": ("qhist.cpp", ["QHIST_GROUP=2"]),
     "qhist3": ("qhist.cpp", ["QHIST_GROUP=3"]),
     "qhist4": ("qhist.cpp", ["QHIST_GROUP=4"]),
+    "mhist0": ("mhist.cpp", ["MHIST_GROUP=0"]),
+    "mhist1": ("mhist.cpp", ["MHIST_GROUP=1"]),
+    "mhist2": ("mhist.cpp", ["MHIST_GROUP=2"]),
 }
 
 
@@ -91,6 +94,21 @@ def c06_jobs(tier):
 def c07_jobs(tier):
     n = scale(tier, 40000, 1500000)
     return [job("qhist%d" % g, n, workers=w, tag=qtag(tier, "C07")) for g, w in ((0, 3), (1, 4), (2, 3), (3, 3), (4, 3))]
+
+
+def c08_jobs(tier):
+    n = scale(tier, 50000, 2000000)
+    tag = scale(tier, "quick", "")
+    js = [job("mhist%d" % g, n, workers=4, tag=tag, plain_pct=15) for g in (0, 1, 2)]
+    js += [job("mhist%d" % g, scale(tier, 6000, 300000), workers=1, tag=tag, params={"sequential": 1}, step_cap=200000) for g in (0, 1, 2)]
+    return js
+
+
+def c09_jobs(tier):
+    n = scale(tier, 50000, 2000000)
+    tag = scale(tier, "quick", "")
+    return [job("mhist0", n, workers=5, tag=tag, plain_pct=15), job("mhist1", n, workers=5, tag=tag, plain_pct=15),
+            job("mhist2", n, workers=6, tag=tag, plain_pct=15)]
 
 
 NOT_YET = {}
@@ -217,6 +235,40 @@ PROPS = {
                 "rejected argument), never destroyed by the queue when it is a raw pointer, a failed forwarding-reference try_push leaves "
                 "the caller's object intact; quarantine allocator for double frees. Non-trivial: the queue was destroyed non-empty after "
                 "internal nodes/segments had been allocated (or it is a ring). Distinct: program + history.",
+        "nontrivial_floor": 0.1,
+        "assumptions": ["sequentially consistent interleavings"],
+    },
+    "C08": {
+        "jobs": c08_jobs,
+        "level_text": "Sampled exploration of set/map histories decided by an exact linearizability check against the sequential set/map "
+                      "specification with value identity (every insertion carries a unique id that lookups and iterators must report), plus "
+                      "long single-threaded sequences checked step by step against the same model.",
+        "level_note": "Trusted: runtime, checker, the encoding of erase(iterator) as 'removes exactly the referenced element if it is still "
+                      "present'; traversal yields are encoded as lookups that may take effect anywhere between traversal begin and the yield.",
+        "technique": "property-based testing: generated set/map programs + schedules vs linearizability checker (set/map spec with value identity), final iteration vs model",
+        "rule": "case = container configuration (list based set with less/greater comparator; hash map with 1/2/4 buckets, identity / "
+                "constant / 2-valued / order-reversing hash, memoize_hash on/off, custom map_to_bucket) x reclaimer x program (prefix, 1-3 "
+                "updater threads x up to 6 operations from emplace / emplace_or_get / get_or_emplace / get_or_emplace_lazy / operator[] / "
+                "erase(key) / find / contains / find+erase(iterator), optionally a traversing thread) over 3-6 keys x generated schedule; "
+                "plus sequential cases of 8-40 operations. Oracle: Wing-Gong linearizability search incl. the final full iteration which "
+                "must equal the model state; quarantine allocator; assertions. Non-trivial: two operations on the same key from different "
+                "threads overlap and one is a successful update (sequential cases: at least 12 operations). Distinct: program + history.",
+        "nontrivial_floor": 0.1,
+        "assumptions": ["sequentially consistent interleavings", "key universe of at most 8 keys"],
+    },
+    "C09": {
+        "jobs": c09_jobs,
+        "level_text": "Sampled exploration of a traversing thread (begin, ++, it++, copies, erase(iterator), repeated dereference) against 1-3 "
+                      "updater threads; decided by the yield rules (a)-(e) of DESIGN.md: memory safety, presence during the traversal (as "
+                      "lookups inside the linearizability check), no element twice, no stable element skipped, erase(iterator) semantics.",
+        "level_note": "Trusted: runtime, checker; 'stable' elements are those inserted by the prefix and never touched by updaters.",
+        "technique": "property-based testing: generated traversals + concurrent updates + schedules vs weak-consistency yield rules and linearizability checker",
+        "rule": "case = container configuration (as C08) x reclaimer x program with one traversing thread and 1-3 updaters over 3-6 keys of "
+                "which the 1-2 largest are stable (inserted first, never touched by updaters) x generated schedule. Oracle: quarantine "
+                "allocator on every access of the iterator, every yield must be linearizable as a lookup between traversal begin and the "
+                "yield, no (key,id) twice, every stable element yielded by a complete traversal, erase(iterator) removes the referenced "
+                "element and returns a following one, traversal ends within 40 steps. Non-trivial: an updater's successful insert/erase "
+                "completed between two steps of the iterator. Distinct: program + history.",
         "nontrivial_floor": 0.1,
         "assumptions": ["sequentially consistent interleavings"],
     },
